@@ -451,6 +451,38 @@ pub fn drive_builder(a: &Args) {
             }
         }
     }
+    // one label between two landmark code points (ends of narrower character types, surrogate block, planes), the rest
+    // of the alphabet given by a default / by explicit labels / left as a hole
+    for (i, &lo) in LANDMARKS.iter().enumerate() {
+        for (j, &hi) in LANDMARKS[i..].iter().enumerate() {
+            let variant = (i + j) % 3;
+            let mut calls = vec![Call::New(0), Call::Add(0, lo, hi, 1)];
+            match variant {
+                0 => calls.push(Call::Def(0, 2)),
+                1 => {
+                    if lo > 0 {
+                        calls.push(Call::Add(0, 0, lo - 1, 2));
+                    }
+                    if hi < MAX_CHAR {
+                        calls.push(Call::Add(0, hi + 1, MAX_CHAR, 0));
+                    }
+                }
+                _ => {
+                    // hole right after the label (unless the label ends the alphabet)
+                    if lo > 0 {
+                        calls.push(Call::Add(0, 0, lo - 1, 2));
+                    }
+                    if hi + 1 < MAX_CHAR {
+                        calls.push(Call::Add(0, hi + 2, MAX_CHAR, 0));
+                    }
+                }
+            }
+            calls.push(Call::Def(1, 1));
+            calls.push(Call::Def(2, 0));
+            calls.push(Call::Fin(1));
+            out.emit(builder_record(&calls, ""));
+        }
+    }
     let n = out.finish();
     println!("{{\"family\":\"builder-random\",\"events\":{}}}", n);
 }
